@@ -1,7 +1,144 @@
-From Coq Require Import Reals List Lra.
-From Persim Require Import Spec.WassersteinS Model.WassM.
+(* C02 - The Wasserstein distance returned by persim.wasserstein is the true min-sum matching cost.
+   Only statements here; every proof is `exact <lemma of Proofs/WassP.v or Proofs/WassEncP.v>`.
+   Model: Model/WassM.v (wasserstein.py lines 46-110); scipy's linear_sum_assignment is the
+   universally quantified [lsa], assumed only to return an optimal assignment of the one matrix it
+   is called on ([lsa_optimal_on]). *)
+From Coq Require Import QArith Qreals Reals List Bool Arith ZArith Permutation Lra Lia.
+From Persim Require Import Spec.PartialMatching Spec.WassersteinS Lib.AugMatching
+     Spec.WassCertS Model.WassM Model.WassEncM Proofs.WassP Proofs.WassEncP.
+Import ListNotations.
 Open Scope R_scope.
-Theorem rot_second_coord : forall p : rpoint, diag_entry p = diagW p.
-Proof. intros [b d]. unfold diag_entry, rotate, diagW, cp, sp. simpl. rewrite cos_PI4, sin_PI4.
-  assert (sqrt 2 <> 0) by (apply Rgt_not_eq, sqrt_lt_R0; lra). field. assumption. Qed.
+
+(* lines 79-92: the entry written on the diagonals of the off blocks - the SECOND coordinate of the
+   diagram rotated by pi/4 - is the perpendicular distance (d-b)/sqrt 2 to the diagonal *)
+Theorem rot_second_coord : forall b d : R,
+  - b * sin (PI / 4) + d * cos (PI / 4) = (d - b) / sqrt 2 /\ diag_entry (b, d) = diagW (b, d).
+Proof. intros b d. split; [apply rot_second_coord_explicit|apply rot_second_coord_l]. Qed.
 Print Assumptions rot_second_coord.
+
+(* Euclidean form of "a diagonal point is neutral": pairing q with a point (x,x) of the diagonal never
+   beats sending q to the diagonal line *)
+Theorem diag_point_neutral : forall (q : rpoint) (x : R), diagW q <= euclid q (x, x).
+Proof. exact diag_le_euclid. Qed.
+Print Assumptions diag_point_neutral.
+
+(* lines 67-72: replacing an empty diagram by the one-point diagram [(0,0)] does not change the minimum;
+   more generally the value against any diagram of diagonal points is the total persistence / sqrt 2 *)
+Theorem placeholder_neutral : forall S T v,
+  is_wasserstein (placeholder 0 S) (placeholder 0 T) v -> is_wasserstein S T v.
+Proof. exact WassP.placeholder_neutral. Qed.
+Print Assumptions placeholder_neutral.
+
+Theorem wasserstein_against_diagonal_points : forall P T,
+  (forall p, In p P -> fst p = snd p) -> is_wasserstein P T (sumRl (map diagW T)).
+Proof. exact wass_all_diag. Qed.
+Print Assumptions wasserstein_against_diagonal_points.
+
+(* spec-level neutrality: adding a point of the diagonal to either diagram leaves the min-sum value unchanged *)
+Theorem diagonal_point_is_neutral : forall (S T : list rpoint) (x v : R),
+  (is_wasserstein (S ++ [(x, x)]) T v <-> is_wasserstein S T v) /\
+  (is_wasserstein S (T ++ [(x, x)]) v <-> is_wasserstein S T v).
+Proof. intros S T x v. split; [apply diag_point_neutral_spec|apply diag_point_neutral_spec_r]. Qed.
+Print Assumptions diagonal_point_is_neutral.
+
+(* the headline: for EVERY solver that returns an optimal assignment of the augmented matrix, the value
+   returned is finite and is the minimum over all partial matchings of the finite points of the summed
+   Euclidean / (d-b)/sqrt 2 costs.  All sizes (0 included), multiplicities, diagonal points, signs. *)
+Theorem wasserstein_correct :
+  forall (lsa : list (list (xcost R)) -> lsa_result) (matching : bool) (dgm1 dgm2 : list (xpt R)),
+  lsa_optimal_on lsa dgm1 dgm2 ->
+  exists v, w_dist (wasserstein lsa matching dgm1 dgm2) = CFin v /\
+            is_wasserstein (finite_pts dgm1) (finite_pts dgm2) v.
+Proof. exact wasserstein_correct_l. Qed.
+Print Assumptions wasserstein_correct.
+
+(* no tie-break is assumed: two solvers that both return optimal assignments give the same distance *)
+Theorem wasserstein_oracle_independent : forall lsa1 lsa2 b1 b2 dgm1 dgm2,
+  lsa_optimal_on lsa1 dgm1 dgm2 -> lsa_optimal_on lsa2 dgm1 dgm2 ->
+  w_dist (wasserstein lsa1 b1 dgm1 dgm2) = w_dist (wasserstein lsa2 b2 dgm1 dgm2).
+Proof. exact oracle_independent_l. Qed.
+Print Assumptions wasserstein_oracle_independent.
+
+(* the assumption is satisfiable for every input (so wasserstein_correct is never vacuous), the minimum
+   always exists, and every admissible solver makes the model return exactly that minimum *)
+Theorem wasserstein_value : forall dgm1 dgm2 : list (xpt R),
+  exists v, is_wasserstein (finite_pts dgm1) (finite_pts dgm2) v /\
+            (exists lsa, lsa_optimal_on lsa dgm1 dgm2) /\
+            forall lsa b, lsa_optimal_on lsa dgm1 dgm2 -> w_dist (wasserstein lsa b dgm1 dgm2) = CFin v.
+Proof. exact wasserstein_value_l. Qed.
+Print Assumptions wasserstein_value.
+
+(* points with a non-finite death are dropped (value and rows unchanged) and the warning is raised *)
+Theorem wasserstein_infinite_deaths_ignored :
+  forall lsa matching (a b : list (xpt R)) (x : R) dgm2,
+    w_dist (wasserstein lsa matching (a ++ (x, None) :: b) dgm2) = w_dist (wasserstein lsa matching (a ++ b) dgm2) /\
+    w_rows (wasserstein lsa matching (a ++ (x, None) :: b) dgm2) = w_rows (wasserstein lsa matching (a ++ b) dgm2) /\
+    w_dist (wasserstein lsa matching dgm2 (a ++ (x, None) :: b)) = w_dist (wasserstein lsa matching dgm2 (a ++ b)) /\
+    w_rows (wasserstein lsa matching dgm2 (a ++ (x, None) :: b)) = w_rows (wasserstein lsa matching dgm2 (a ++ b)) /\
+    fst (w_warn (wasserstein lsa matching (a ++ (x, None) :: b) dgm2)) = true /\
+    snd (w_warn (wasserstein lsa matching dgm2 (a ++ (x, None) :: b))) = true.
+Proof. exact infinite_deaths_ignored_l. Qed.
+Print Assumptions wasserstein_infinite_deaths_ignored.
+
+(* value against the empty diagram *)
+Theorem wasserstein_vs_empty : forall lsa matching dgm1,
+  lsa_optimal_on lsa dgm1 [] ->
+  w_dist (wasserstein lsa matching dgm1 []) = CFin (sumRl (map diagW (finite_pts dgm1))).
+Proof. exact wasserstein_vs_empty_l. Qed.
+Print Assumptions wasserstein_vs_empty.
+
+(* weak LP duality on a matrix with np.inf cells: potentials that are feasible on the finite cells bound
+   the cost of every assignment from below *)
+Theorem weak_duality : forall (D : list (list (xcost R))) (u v : list R) mi mj s,
+  length u = length D -> length v = length D ->
+  (forall i j c, (i < length D)%nat -> (j < length D)%nat -> entry D i j = CFin c -> nth i u 0 + nth j v 0 <= c) ->
+  is_assignment (length D) mi mj -> xsum (gather D mi mj) = CFin s ->
+  sumRl u + sumRl v <= s.
+Proof. exact weak_duality_l. Qed.
+Print Assumptions weak_duality.
+
+(* the Z.sqrt based bounds used to execute the model *)
+Theorem sqrt_enclosure_sound : forall (p : positive) (q : Q),
+  Q2R (fst (sqrt_bounds p q)) <= sqrt (Q2R q) <= Q2R (snd (sqrt_bounds p q)).
+Proof. exact sqrt_bounds_sound. Qed.
+Print Assumptions sqrt_enclosure_sound.
+
+(* how the model is run: whenever the checker accepts the certificates (an assignment, dual potentials) and
+   returns (lo, hi), the value of the model on the same (rational) input lies in [lo, hi] - for every
+   optimal-assignment solver.  A rejected certificate gives None: never a wrong enclosure. *)
+Theorem wass_enclosure_sound :
+  forall lsa matching (p : positive) (d1 d2 : list (xpt Q)) (sigma : list nat) (u v : list Q) (lo hi : Q),
+  wass_enclosure p d1 d2 sigma u v = Some (lo, hi) ->
+  lsa_optimal_on lsa (map injx d1) (map injx d2) ->
+  exists x, w_dist (wasserstein lsa matching (map injx d1) (map injx d2)) = CFin x /\ Q2R lo <= x <= Q2R hi.
+Proof. exact wass_enclosure_sound_l. Qed.
+Print Assumptions wass_enclosure_sound.
+
+(* ---- second return value (shared with C06, Wasserstein half) ------------------------------- *)
+(* matching=True returns the same distance *)
+Theorem matching_flag_irrelevant : forall lsa dgm1 dgm2,
+  w_dist (wasserstein lsa true dgm1 dgm2) = w_dist (wasserstein lsa false dgm1 dgm2).
+Proof. exact matching_flag_irrelevant_l. Qed.
+Print Assumptions matching_flag_irrelevant.
+
+(* for every optimal-assignment solver the returned rows are a certificate for the returned distance:
+   all third entries are finite; among the first (second) entries every index of the placeholder-expanded
+   first (second) diagram occurs exactly once and everything else is -1; no (-1,-1) row; each third entry
+   is the Euclidean / (d-b)/sqrt 2 cost of its pairing; the third entries sum to the distance - which is
+   the min-sum value of the finite points. *)
+Theorem wasserstein_matching_cert : forall lsa dgm1 dgm2, lsa_optimal_on lsa dgm1 dgm2 ->
+  exists v rs,
+    w_dist (wasserstein lsa true dgm1 dgm2) = CFin v /\
+    w_rows (wasserstein lsa true dgm1 dgm2) = Some (map (fun r => (fst r, CFin (snd r))) rs) /\
+    wass_cert (placeholder 0 (finite_pts dgm1)) (placeholder 0 (finite_pts dgm2)) v rs /\
+    is_wasserstein (finite_pts dgm1) (finite_pts dgm2) v.
+Proof. exact wasserstein_matching_cert_l. Qed.
+Print Assumptions wasserstein_matching_cert.
+
+(* ---- non-vacuity ------------------------------------------------------------------------ *)
+(* the enclosure checker does accept certificates: [(0,1)] against [(1,2)] costs sqrt 2 *)
+Example enclosure_accepts :
+  exists lo hi, wass_enclosure 10 [(0, Some 1)]%Q [(1, Some 2)]%Q [1%nat; 0%nat] [(724#1024); 0]%Q [(724#1024); 0]%Q = Some (lo, hi)
+                /\ (hi - lo <= 3 # 1024)%Q.
+Proof. eexists. eexists. split; [vm_compute; reflexivity|]. vm_compute. discriminate. Qed.
+
